@@ -49,6 +49,20 @@ def run_program(acc, params, isa, files, main='main.asm', incdirs=(), start=0, e
             msg2 = judge_expect(spec2, [out2])
             if msg2:
                 acc.violation([case2], spec2, f'[{spec2["mode"]}] {msg2}', [out2], priority=priority)
+    if ref.status == 'OK' and not msg and fill == 0:
+        # an assembled byte is the same byte whatever value pads the unassembled addresses: every ninth accepted program is built
+        # once more with another fill value and judged against the same reference
+        import zlib
+        pick = zlib.crc32(repr(sorted(case.files.items())).encode('utf-8', 'surrogateescape'))     # the same programs on every run
+        if pick % 9 == 0:
+            f2 = (0xFF, 0x3C)[pick // 9 % 2]
+            case3 = Case(isa, R.render_files(files), main=main, incdirs=incdirs, start=start, end=end, fill=f2, defines=defines, tag=tag)
+            out3 = acc.run(case3)
+            acc.transition()
+            spec3 = expect_spec(ref, start, end, f2)
+            msg3 = judge_expect(spec3, [out3])
+            if msg3:
+                acc.violation([case3], spec3, f'[-f {f2}] {msg3}', [out3], priority=priority)
     cl = clause(ref) if callable(clause) else clause
     if cl is None:
         cl = 'accepted' if ref.status == 'OK' else 'rejected'
